@@ -384,6 +384,7 @@ def parseTy : Nat → List String → Option (Ty × List String)
     | "strlike" :: r => some (.strLike, r)
     | "path" :: r => some (.path, r)
     | "phantom" :: r => some (.phantom, r)
+    | "userdyn" :: r => some (.userDyn, r)
     | "string" :: sz :: r => sz.toNat?.map fun n => (.stringLike n, r)
     | "user" :: sz :: r => sz.toNat?.map fun n => (.user n, r)
     | "cstring" :: sz :: r => sz.toNat?.map fun n => (.cString n, r)
